@@ -36,7 +36,7 @@ type c19Plan struct {
 }
 
 var c19Endings = []string{"served", "served", "served", "not-found", "paused-out", "stopped", "redirect", "tls-refused", "target-down", "target-silent",
-	"too-large", "resp-overflow", "client-abort", "upgrade", "sse", "target-cut-mid-body"}
+	"too-large", "resp-overflow", "client-abort", "upgrade", "sse", "target-cut-mid-body", "early-hints"}
 
 func c19Gen(t *rapid.T) c19Plan {
 	p := c19Plan{}
@@ -183,7 +183,10 @@ func c19Run(t *testing.T, p c19Plan) (res vfResult) {
 				// full header block, part of the promised body, then the connection is reset: the proxy's handler aborts
 				script = []vfRawStep{{Kind: "bytes", Data: "HTTP/1.1 200 OK\r\nContent-Length: 50000\r\nX-Vf-Target: raw\r\nContent-Type: text/x-vf\r\n\r\n" + strings.Repeat("z", 20000)}, {Kind: "delay", DelayMs: 5}, {Kind: "reset"}}
 				wantStatus, wantLen = 200, -2
-				respHeaders = nil
+				respHeaders = http.Header{"X-Vf-Target": {"raw"}, "Content-Type": {"text/x-vf"}}
+			case "early-hints":
+				// an interim response first: the record carries the final status
+				script = append([]vfRawStep{{Kind: "bytes", Data: "HTTP/1.1 103 Early Hints\r\nLink: </s.css>; rel=preload\r\n\r\n"}, {Kind: "delay", DelayMs: 3}}, script...)
 			}
 			if rq.Ending != "served" {
 				other = true
